@@ -374,12 +374,15 @@ type c17Family struct {
 	chil       []int
 	marr       string
 	marrPl     string
+	div        bool // 1 DIV (c17stats.go)
+	marrBare   bool // 1 MARR without a date
 }
 
 type c17Doc struct {
 	people []*c17Person
 	fams   []*c17Family
 	source bool
+	more   []c17Source // further SOUR records (c17stats.go)
 }
 
 func c17tok(r *Rand, kind string, i int) string {
@@ -565,6 +568,9 @@ func c17Gen(r *Rand, now int) *c17Doc {
 			p.role["unconnected"] = true
 		}
 	}
+	// further sources, divorces (drawn from a side generator: the draws above and below are unchanged)
+	d.more = c17GenSources(r)
+	c17GenFamilyEvents(r, d.fams)
 	return d
 }
 
@@ -572,7 +578,7 @@ func c17Gen(r *Rand, now int) *c17Doc {
 // nickname, alternative name, event date and place that is present gets another value (the events
 // and fields that exist, the living status and all links stay as they are).
 func c17Variant(r *Rand, d *c17Doc, now int) *c17Doc {
-	v := &c17Doc{fams: d.fams, source: d.source}
+	v := &c17Doc{fams: d.fams, source: d.source, more: d.more}
 	for _, p := range d.people {
 		q := *p
 		if q.living {
@@ -701,6 +707,12 @@ func (d *c17Doc) Text() string {
 		w("0 @S1@ SOUR")
 		w("1 TITL Parish register")
 	}
+	for _, src := range d.more {
+		w("0 @%s@ SOUR", src.ptr)
+		for _, l := range src.lines {
+			w("%s", l)
+		}
+	}
 	for fi, f := range d.fams {
 		w("0 @F%d@ FAM", fi+1)
 		if f.husb >= 0 {
@@ -720,6 +732,11 @@ func (d *c17Doc) Text() string {
 			if f.marrPl != "" {
 				w("2 PLAC %s", f.marrPl)
 			}
+		} else if f.marrBare {
+			w("1 MARR")
+		}
+		if f.div {
+			w("1 DIV Y")
 		}
 	}
 	w("0 TRLR")
@@ -1051,6 +1068,15 @@ func init() {
 							c.Eval()
 							c.Count("site-skeleton/" + m.vis)
 						}
+						// (T)+(S) statistics, source list, source pages, header counts
+						nl := 0
+						for _, p := range d.people {
+							if p.living {
+								nl++
+							}
+						}
+						c17StatsCheck(c, gdoc, abs, ob, sr.groups, map[string]*c17Site{"show": sr.show, "placeholder": sr.ph, "hide": sr.hideA},
+							len(d.people), nl, input)
 					}
 				}
 			}
